@@ -279,6 +279,32 @@ fn oversize(r: &mut Rng) -> String {
     src
 }
 
+/// Exactly N error diagnostics (N around multiples of 256: an exit status is eight bits wide).
+fn many_errors(r: &mut Rng) -> String {
+    let n = r.pick(&[255u64, 256, 256, 257, 512]);
+    let mut src = String::new();
+    let lexical = r.chance(40);
+    for i in 0..n {
+        if lexical {
+            src += "@\n";
+        } else {
+            src += &format!("shout(zz_undeclared_{i})\n");
+        }
+    }
+    src
+}
+
+/// A function-free loop whose per-iteration temporaries add up to more than the CLI's 256 MiB
+/// arenas unless the frame arena is really being reset.
+fn churn_loop(r: &mut Rng) -> String {
+    // temporaries only: a stored string longer than 256 bytes stays in the persistent arena for good
+    let piece = "x".repeat(r.pick(&[12_000usize, 16_384]));
+    let iters = r.pick(&[12_000u64, 14_000]);
+    format!(
+        "make big get \"{piece}\"\nmake i get 0\nmake hits get 0\njasi (i small pass {iters}) start\n    if to say ((big add big) na big) start\n        hits get hits add 1\n    end\n    i get i add 1\nend\nshout(i)\nshout(hits)\n"
+    )
+}
+
 fn gen_program(r: &mut Rng) -> Value {
     if r.chance(8) {
         let (text, what) = degenerate(r);
@@ -465,11 +491,13 @@ impl C14 {
                 format!("naija ({bin_kind}, {route}): stdout differs from the library pipeline ({ending}); {}; stderr: {:?}", first_diff(&g, &w), String::from_utf8_lossy(&out.stderr).chars().take(200).collect::<String>()),
             ));
         }
-        if code != want_code {
-            return Err(("cli-exit-status".into(), format!("naija ({bin_kind}, {route}) exited with {code}, expected {want_code} ({ending})")));
-        }
+        // the statement asks for 0 on success and non-zero on any error diagnostic, not for a particular
+        // non-zero value
         if (want_code == 0) != (code == 0) {
-            return Err(("cli-exit-status".into(), format!("exit status {code} for ending {ending}")));
+            return Err((
+                "cli-exit-status".into(),
+                format!("naija ({bin_kind}, {route}) exited with {code}; the library pipeline ends `{ending}`, so the status must be {}", if want_code == 0 { "0" } else { "non-zero" }),
+            ));
         }
         Ok(())
     }
@@ -500,6 +528,14 @@ impl Engine for C14 {
             // (b) CLI differential
             let mut program = gen_program(&mut r);
             let mut route = r.pick(&["file", "eval", "stdin", "file", "stdin", "devstdin"]);
+            if r.chance(3) {
+                program = json!({"prog": prog::block_to_json(&[St::Raw(many_errors(&mut r))]), "plant": "many-errors"});
+            } else if r.chance(2) {
+                program = json!({"prog": prog::block_to_json(&[St::Raw(churn_loop(&mut r))]), "plant": "churn-loop"});
+                if route == "eval" {
+                    route = "file";
+                }
+            }
             if r.chance(3) {
                 // too long for an argument vector: file and stdin routes only
                 program = json!({"prog": prog::block_to_json(&[St::Raw(oversize(&mut r))]), "plant": "oversize"});
